@@ -49,6 +49,13 @@ def values(rng, n):
 
 
 def gen(rng, i, tier):
+    if i >= 0 and i % 70 == 11:
+        # a long curve (Rmax = 100 at Rdelta = 0.01; Q beyond 80 on the 0.01 grid): more rows than any internal block
+        n = int(rng.choice([8193, 10001, 16385, 20000]))
+        w = int(rng.integers(0, len(WRITERS)))
+        xs = np.round(np.arange(n) * 0.01, 2)
+        return dict(kind="write", writer=WRITERS[w][0], w=w, x=tolist(xs), y=tolist(rng.normal(size=n)), prior=None, has_prior=False,
+                    explicit=False, stem="long%d" % n, rsf="g(r)")
     if rng.random() < 0.75:
         n = int(rng.choice([0, 1, 2, 3, int(rng.integers(4, 60 if tier == "quick" else 300))]))
         w = int(rng.integers(0, len(WRITERS)))
@@ -138,13 +145,21 @@ def evaluate(case):
                 back = np.loadtxt(os.path.join(d, name), skiprows=2, comments="#", unpack=True, ndmin=2)
                 for col, v in zip(back, (x, y)):
                     diff = np.abs(col - v)
-                    bad = diff > 5.0000001e-13  # 5e-13 plus the representation error of the parsed double where that is negligible
+                    bad = diff > 5.0000001e-13  # candidates; judged exactly below
                     if bad.any():
+                        # exact judgement (rationals): how far is the parsed double from the stored double?
+                        ex = [abs(Fraction(float(a)) - Fraction(float(b))) for a, b in zip(col[bad], v[bad])]
+                        over = [(d, float(b)) for d, b in zip(ex, v[bad]) if d > Fraction(5, 10 ** 13)]
+                        if not over:
+                            continue
                         k = int(np.argmax(bad))
-                        if 4096 <= abs(v[k]) < 8192 and diff[k] <= np.spacing(abs(v[k])) * 1.0000001 \
-                                and all(4096 <= abs(t) < 8192 for t in v[bad]):
+                        if all(4096 <= abs(b) < 8192 and d <= Fraction(float(np.spacing(abs(b)))) for d, b in over):
                             fails.append("re-parsed value is one ulp (9.09e-13 > 5e-13) away from the stored one for 4096 <= |v| < 8192 "
                                          "(the 12-decimal text is within 5e-13, but its nearest double is the neighbour)")
+                        elif all(d <= Fraction(5, 10 ** 13) + Fraction(float(np.spacing(abs(b)))) / 2 for d, b in over):
+                            fails.append("re-parsed value exceeds 5e-13 by less than half an ulp of the stored value: the 12-decimal text is a "
+                                         "(near-)tie exactly 5e-13 away and its nearest double lies on the far side "
+                                         f"(e.g. stored {over[0][1]!r}, excess {float(over[0][0] - Fraction(5, 10 ** 13)):.3g})")
                         else:
                             fails.append(f"{case['writer']}: parsed value {col[k]!r} differs from the stored {v[k]!r} by {diff[k]:.3g} > 5e-13")
             except Exception as ex:  # noqa: BLE001
